@@ -412,13 +412,13 @@ where
         use std::collections::hash_map::Entry;
 
         let r = match self.refs.get(old.id)? {
-            XRef::Free { .. } => panic!(),
+            XRef::Free { .. } => return Err(PdfError::FreeObject { obj_nr: old.id }),
             XRef::Raw { gen_nr, .. } => PlainRef { id: old.id, gen: gen_nr },
             // an object stored in an object stream is replaced by an ordinary object with the
             // same number (compressed objects always have generation 0)
             XRef::Stream { .. } => PlainRef { id: old.id, gen: 0 },
             XRef::Promised => PlainRef { id: old.id, gen: 0 },
-            XRef::Invalid => panic!()
+            XRef::Invalid => return Err(PdfError::NullRef { obj_nr: old.id }),
         };
         let primitive = obj.to_primitive(self)?;
         match self.changes.entry(old.id) {
